@@ -17,6 +17,12 @@ import Shangrla.Lemmas.NMKaplan
 namespace Shangrla.C11
 open Shangrla.XR Shangrla.NM
 
+/-- what "`p` equals the smallest history entry" means: for a non-empty history of p-values,
+`XR.minList hist` (`np.min`) is a p-value, is one of the entries, and is `≤` every entry -/
+theorem minList_is_smallest {hist : List XR} (hne : hist ≠ []) (hP : ∀ h ∈ hist, IsP h) :
+    IsP (XR.minList hist) ∧ XR.minList hist ∈ hist ∧ ∀ h ∈ hist, XR.le (XR.minList hist) h = true :=
+  XR.minList_isP hne hP
+
 /-! ## `kaplan_wald` -/
 
 /-- the running products `T_j` of `kaplan_wald` (L601) -/
@@ -385,6 +391,16 @@ theorem kk_err_empty (cfg : Cfg) (n : Nat) (hN : cfg.N = some n) (hn : n ≠ 0) 
   unfold kaplanKolmogorov
   simp only [hN, hn, sjm]
   rfl
+
+/-- error clause: `N = 0` raises `AssertionError` ("Population size not positive!") whatever the sample -/
+theorem kk_err_N0 (cfg : Cfg) (x : List Rat) (hN : cfg.N = some 0) :
+    kaplanKolmogorov cfg x = .error .assertion := by
+  unfold kaplanKolmogorov
+  by_cases h2 : x.any (· < 0) = true
+  · simp only [h2]; rfl
+  · by_cases h4 : x.length > 0
+    · simp only [h2, hN, h4]; rfl
+    · simp only [h2, hN, h4]; rfl
 
 -- non-vacuity: N = 4, t = 1/2, g = 0 and a sample that drives the null mean to 0 and below
 example : ∃ p hist, kaplanKolmogorov { N := some 4, u := 1, t := 1/2, randomOrder := true, kw := {} }
